@@ -635,6 +635,23 @@ func apply(w *walk.Worker, ctx sdk.Context, e *graph.Edge, path []*graph.Edge, g
 			fail("C12", "panic", "vesting.import.panic", "InitGenesis of the exported state panicked: "+p, nil, p)
 			return ctx, fs, true
 		}
+		// the accounts the module created must also pass x/auth's genesis validation (the application's exported genesis is
+		// validated module by module): a continuous vesting account needs start < end
+		for _, n := range s.addrs {
+			cv, isCV := app.AccountKeeper.GetAccount(ctx, s.addr[n]).(*vestingtypes.ContinuousVestingAccount)
+			if !isCV {
+				continue
+			}
+			if verr := cv.Validate(); verr != nil {
+				// is this the schedule the specification (i.e. the documentation) prescribes for that account, or another one?
+				ma, _ := graph.Rec(exp["acct"])[n].(graph.M)
+				sig := "vesting.export.auth-invalid.other"
+				if ma != nil && graph.Str(ma["kind"]) == "cv" && graph.Num(ma["start"]) >= graph.Num(ma["end"]) && graph.Num(ma["start"]) == cv.StartTime-env.T0.Unix() && graph.Num(ma["end"]) == cv.EndTime-env.T0.Unix() {
+					sig = "vesting.export.auth-invalid.documented-schedule"
+				}
+				fail("C12", "predicate", sig, "account "+n+" makes the exported auth genesis invalid: "+verr.Error(), "valid", fmt.Sprintf("start=%d end=%d", cv.StartTime-env.T0.Unix(), cv.EndTime-env.T0.Unix()))
+			}
+		}
 		// the imported state must export to the very same genesis (ids, order, every field)
 		if p := env.Try(func() {
 			if bz3, err3 := cdc.MarshalJSON(cfevesting.ExportGenesis(ctx, k)); err3 != nil || string(bz3) != string(bz) {
